@@ -9,7 +9,7 @@
    PARTIAL: 'each restored state is entered once' is the tree characterisation of the entered set (C01_tree_entry_legal)
    plus the monitor; that the restored sub-configuration equals the remembered one state by state is decided by the
    correspondence. *)
-From XSM Require Import Model.Macro Model.Snap Proofs.HistP Proofs.LegalP Proofs.DescentP Proofs.HistoryP.
+From XSM Require Import Model.Macro Model.Snap Proofs.HistP Proofs.LegalP Proofs.DescentP Proofs.HistoryP Proofs.IdP Proofs.GeomBridge Model.TreeLib Gen.GenGeom.
 
 (* what is recorded is the active sub-configuration at the LAST exit that involved the parent: each time states are
    about to be exited, every history-owning state on their ancestor chains that has active proper descendants gets
@@ -82,6 +82,19 @@ Theorem C11_snapshot_same : forall m s r,
 Proof. exact snapshot_keeps_history. Qed.
 Print Assumptions C11_snapshot_same.
 
+(* TIE T: what a history target expands to (_resolve_history_target) and what is remembered when states are exited
+   (_record_history), as RE-TRANSLATED from the current source on every run (Gen/GenGeom.v), are the model functions
+   `resolve_history` and `record_history` the theorems above are stated over - the former as a function, the latter
+   entry by entry of the history store (the source walks its candidate set in an order the model does not fix) *)
+Theorem C11_resolve_is_the_source : forall m H h, GenGeom.resolve_history_target m H h = resolve_history m H h.
+Proof. exact resolve_history_bridge. Qed.
+Print Assumptions C11_resolve_is_the_source.
+Theorem C11_record_is_the_source : forall m, ancestry_side_ok m = true -> forall exiting s p,
+  (forall x, In x (s_cfg s) -> x < size m) ->
+  hist_get (GenGeom.record_history_src m (s_cfg s) (s_hist s) exiting) p = hist_get (s_hist (record_history m exiting s)) p.
+Proof. exact record_history_bridge. Qed.
+Print Assumptions C11_record_is_the_source.
+
 (* non-vacuity: a deep history child of a parallel state *)
 Definition n_ id par k ch ini d : node := Build_node id par k ch ini d [] [] [] None [] [] None None.
 Definition ex_m : machine := Build_machine
@@ -98,5 +111,8 @@ Example C11_ex :
   let s := mk [0; 1; 2; 4; 5; 6] [] [] [] Running None [] 0 0 [] 0 in
   let s' := record_history ex_m [6; 4; 5; 2; 1] s in
   hist_get (s_hist s') 1 = [2; 5; 4; 6] /\ resolve_history ex_m (s_hist s') 7 = [4; 6] /\
-  resolve_history ex_m [] 7 = [1].
-Proof. vm_compute. auto. Qed.
+  resolve_history ex_m [] 7 = [1] /\
+  ancestry_side_ok ex_m = true /\
+  hist_get (GenGeom.record_history_src ex_m (s_cfg s) (s_hist s) [6; 4; 5; 2; 1]) 1 = [2; 5; 4; 6] /\
+  GenGeom.resolve_history_target ex_m (s_hist s') 7 = [4; 6].
+Proof. vm_compute. repeat split; reflexivity. Qed.
